@@ -74,7 +74,7 @@ func csettings(l [][2]uint32) string {
 func cfields(fs []Field) string {
 	var e []string
 	for _, f := range fs {
-		e = append(e, fmt.Sprintf("(%s,%s,%s)", bs([]byte(f.N)), bs([]byte(f.V)), cb(f.S)))
+		e = append(e, fmt.Sprintf("(%s,%s,%s)", bs([]byte(f.N)), bs([]byte(f.Val())), cb(f.S)))
 	}
 	return clist("field", e)
 }
@@ -225,7 +225,7 @@ func (c *Case) Coq() string {
 }
 
 // WriteShard writes one cases file evaluating the correspondence and the property oracle.
-func WriteShard(dir string, idx int, propOK, propWhy string, cases []*Case) (string, error) {
+func WriteShard(dir string, idx int, propWhy string, cases []*Case) (string, error) {
 	var sb strings.Builder
 	sb.WriteString("From G09 Require Import Check.\nOpen Scope N_scope.\n")
 	var cs []string
@@ -234,9 +234,8 @@ func WriteShard(dir string, idx int, propOK, propWhy string, cases []*Case) (str
 	}
 	fmt.Fprintf(&sb, "Definition cases : list hcase :=\n [%s].\n", strings.Join(cs, ";\n "))
 	sb.WriteString("Definition M := Eval vm_compute in (bad case_model_ok cases).\n")
-	fmt.Fprintf(&sb, "Definition P := Eval vm_compute in (bad %s cases).\n", propOK)
 	fmt.Fprintf(&sb, "Definition W := Eval vm_compute in (why %s cases).\n", propWhy)
-	sb.WriteString("Print M.\nPrint P.\nPrint W.\n")
+	sb.WriteString("Print M.\nPrint W.\n")
 	name := fmt.Sprintf("cases_%03d.v", idx)
 	return name, os.WriteFile(filepath.Join(dir, name), []byte(sb.String()), 0o644)
 }
